@@ -2,7 +2,7 @@
 import re
 
 from analysis import (flow_key, Prov, Guards, fmt, fmt_short, walk, roots, short, comparison, find_calls, callee_matches,
-                      must_pass, const_int_of, writes_into, _lin_add, canon, slice_span, normalised_cmp, cmp_intervals)
+                      must_pass, const_int_of, writes_into, _lin_add, canon, slice_span, normalised_cmp, cmp_intervals, closure_return_in_caller_terms)
 from aff import Aff, Fact
 from facts import AnchorError, strip_closure
 from harness import Rule, guarded
@@ -164,6 +164,17 @@ def r1_r2(ctx):
             v = kp.operand(payload.ops[0])
             vs = sorted(set(x[1].split("::")[-1] for x in roots(v) if x[0] == "agg" and x[1].startswith(P + "PacketKind::")))
             ok_sites[blk] = vs
+    # a kind built inside a combinator (`NodeId::parse(d).map(|src_id| PacketKind::Message { src_id }).map_err(..)`): the site is the call
+    # whose result is returned
+    for bi, t in kb.calls():
+        if bi in kb.live_blocks() and t.dest.is_local() and t.dest.local in ret_locals:
+            for x in walk(canon(kp.call(t, bi))):
+                if x[0] == "call" and re.search(r"Result::(map|and_then)$", short(x[1])) and len(x[2]) == 2:
+                    rv = closure_return_in_caller_terms(facts, canon(x[2][1]), [("unknown", "payload")])
+                    if rv is not None:
+                        vs = sorted(set(y[1].split("::")[-1] for y in walk(rv) if y[0] == "agg" and y[1].startswith(P + "PacketKind::")))
+                        if vs:
+                            ok_sites[bi] = sorted(set(ok_sites.get(bi, [])) | set(vs))
     want = {"Message": ("eq", 32), "WhoAreYou": ("eq", 24)}
     seen = set()
     for blk, vs in ok_sites.items():
